@@ -8,7 +8,7 @@ set_option linter.unusedSimpArgs false
 namespace RV.Conc
 
 def critI : IPc → Bool
-  | .postLock | .locked | .stepping | .stepped => true
+  | .postLock | .locked | .stepping | .stepped | .inHb => true
   | _ => false
 
 def critS : SPc → Bool
@@ -29,7 +29,7 @@ started inside an iteration of the loop that runs without the mutex (`racy = fal
 structure Inv (s : State) : Prop where
   ownI  : s.owner = some .I ↔ (critI s.ipc = true ∧ s.ilock = true)
   ownS  : s.owner = some .S ↔ critS s.spc = true
-  stepP : s.sim.phase = .inStep ↔ s.ipc = .stepping
+  stepP : s.sim.phase = .inStep ↔ (s.ipc = .stepping ∨ s.ipc = .inHb)
   adjP  : s.sim.phase = .inAdjust ↔ adjPc s.ipc = true
   nc    : s.needCopy = true ↔ ncHigh s.spc = true
   snapS : s.spc = .serialising → ∃ m, s.snap = some m ∧ m.steps = s.sim.steps ∧ m.phase ≠ .inStep
@@ -58,7 +58,7 @@ def grp : Ev → Nat
   | .iEnter | .iChkBegin | .iChkSync | .iChkEnd _ => 0
   | .iSeeSrv _ | .iSpin | .iSeeNC0 | .iLock | .iSetFlag => 1
   | .iStepBegin | .iStepEnd | .iUnlock | .iSkipUnlock | .iClrFlag => 2
-  | .iShotUnlock | .iShotLock | .sStatic | .sDrop => 5
+  | .iShotUnlock | .iShotLock | .sStatic | .sDrop | .iHbBegin | .iHbEnd => 5
   | .iEpiSync | .iLeave | .xStart | .sReq | .xStop => 3
   | .sSetNC | .sLock | .sSerBegin | .sSerEnd => 4
   | .sClrNC | .sUnlock | .sSent => 5
@@ -74,19 +74,19 @@ theorem step_inv_g0 {s s' : State} {e : Ev} (hg : grp e = 0) (h : Inv s)
     (hs : step s e = some s') (hr : s'.racy = false) : Inv s' := by
   obtain ⟨ipc, spc, owner, nc, ⟨steps, adj, phase⟩, snap, served, up, il, rc, ub, me⟩ := s
   obtain ⟨h1, h2, h3, h4, h5, h6, h7, h8, h9, h10, h11, h12, h13, h14, h15⟩ := h
-  cases e <;> simp only [grp] at hg <;> (try omega) <;> inv_case
+  cases e <;> simp only [grp] at hg <;> (try omega) <;> inv_case <;> (try (cases ipc <;> simp_all))
 
 theorem step_inv_g1 {s s' : State} {e : Ev} (hg : grp e = 1) (h : Inv s)
     (hs : step s e = some s') (hr : s'.racy = false) : Inv s' := by
   obtain ⟨ipc, spc, owner, nc, ⟨steps, adj, phase⟩, snap, served, up, il, rc, ub, me⟩ := s
   obtain ⟨h1, h2, h3, h4, h5, h6, h7, h8, h9, h10, h11, h12, h13, h14, h15⟩ := h
-  cases e <;> simp only [grp] at hg <;> (try omega) <;> inv_case
+  cases e <;> simp only [grp] at hg <;> (try omega) <;> inv_case <;> (try (cases ipc <;> simp_all))
 
 theorem step_inv_g2 {s s' : State} {e : Ev} (hg : grp e = 2) (h : Inv s)
     (hs : step s e = some s') (hr : s'.racy = false) : Inv s' := by
   obtain ⟨ipc, spc, owner, nc, ⟨steps, adj, phase⟩, snap, served, up, il, rc, ub, me⟩ := s
   obtain ⟨h1, h2, h3, h4, h5, h6, h7, h8, h9, h10, h11, h12, h13, h14, h15⟩ := h
-  cases e <;> simp only [grp] at hg <;> (try omega) <;> inv_case
+  cases e <;> simp only [grp] at hg <;> (try omega) <;> inv_case <;> (try (cases ipc <;> simp_all))
 
 theorem step_inv_g3 {s s' : State} {e : Ev} (hg : grp e = 3) (h : Inv s)
     (hs : step s e = some s') (hr : s'.racy = false) : Inv s' := by
@@ -98,13 +98,13 @@ theorem step_inv_g4 {s s' : State} {e : Ev} (hg : grp e = 4) (h : Inv s)
     (hs : step s e = some s') (hr : s'.racy = false) : Inv s' := by
   obtain ⟨ipc, spc, owner, nc, ⟨steps, adj, phase⟩, snap, served, up, il, rc, ub, me⟩ := s
   obtain ⟨h1, h2, h3, h4, h5, h6, h7, h8, h9, h10, h11, h12, h13, h14, h15⟩ := h
-  cases e <;> simp only [grp] at hg <;> (try omega) <;> inv_case
+  cases e <;> simp only [grp] at hg <;> (try omega) <;> inv_case <;> (try (cases ipc <;> simp_all))
 
 theorem step_inv_g5 {s s' : State} {e : Ev} (hg : grp e = 5) (h : Inv s)
     (hs : step s e = some s') (hr : s'.racy = false) : Inv s' := by
   obtain ⟨ipc, spc, owner, nc, ⟨steps, adj, phase⟩, snap, served, up, il, rc, ub, me⟩ := s
   obtain ⟨h1, h2, h3, h4, h5, h6, h7, h8, h9, h10, h11, h12, h13, h14, h15⟩ := h
-  cases e <;> simp only [grp] at hg <;> (try omega) <;> inv_case
+  cases e <;> simp only [grp] at hg <;> (try omega) <;> inv_case <;> (try (cases ipc <;> simp_all))
 
 theorem grp_lt (e : Ev) : grp e < 6 := by cases e <;> simp [grp]
 
